@@ -60,7 +60,7 @@ Definition ws_suffix_rev (s : list N) : nat :=
       | b1 :: r1 =>
         if (b1 =? 194) && ((b0 =? 133) || (b0 =? 160)) then 2%nat
         else match r1 with
-          | b2 :: _ => ws_prefix [b2; b1; b0]
+          | b2 :: _ => match ws_prefix [b2; b1; b0] with 3%nat => 3%nat | _ => 0%nat end   (* a 3-byte blank only *)
           | [] => 0%nat
           end
       | [] => 0%nat
